@@ -22,15 +22,19 @@ Atoms == {"callme", "1", "sinx(i)", "'call fa(x)'", "x"}
 Leaf(a) == [k |-> "atom", f |-> a, a1 |-> <<>>, a2 |-> <<>>]
 Call1(f, e) == [k |-> "call1", f |-> f, a1 |-> <<e>>, a2 |-> <<>>]
 Call2(f, e1, e2) == [k |-> "call2", f |-> f, a1 |-> <<e1>>, a2 |-> <<e2>>]
+Group(e) == [k |-> "group", f |-> "", a1 |-> <<e>>, a2 |-> <<>>]          \* (e + 1.0): a parenthesis that is no argument list
 
 E0 == {Leaf(a) : a \in Atoms}
 E1 == E0 \cup {Call1(f, e) : f \in UserFuncs \cup Intrinsics, e \in E0}
 E2 == E1 \cup {Call1(f, e) : f \in UserFuncs \cup Intrinsics, e \in E1 \ E0}
          \cup {Call2("fb", e1, e2) : e1 \in E1, e2 \in E0 \cup {Call1("fa", Leaf("1"))}}
+         \cup {Group(e) : e \in E1 \ E0} \cup {Group(Group(e)) : e \in E1 \ E0}
+         \cup {Call1("fa", Group(e)) : e \in E1 \ E0}
 
 RECURSIVE FuncsIn(_)
 FuncsIn(e) ==
   IF e.k = "atom" THEN {}
+  ELSE IF e.k = "group" THEN FuncsIn(e.a1[1])
   ELSE (IF e.f \in UserFuncs \cup {"fb"} THEN {e.f} ELSE {})
        \cup FuncsIn(e.a1[1]) \cup (IF e.k = "call2" THEN FuncsIn(e.a2[1]) ELSE {})
 
@@ -57,6 +61,11 @@ Forms == {
   [n |-> "format", slots |-> 0, subs |-> {}],            \* 10 format (i3, f(2))   -- looks like calls, is none
   [n |-> "arithif", slots |-> 0, subs |-> {}],           \* if (x) 10, 20, 30
   [n |-> "cgoto", slots |-> 0, subs |-> {}],             \* go to (10, 20) x
+  [n |-> "cgoto_label", slots |-> 0, subs |-> {}],       \* 5 go to (10, 20), i        -- a label in front
+  [n |-> "cgoto_if", slots |-> 1, subs |-> {}],          \* if (E > 0) go to (10, 20), i
+  [n |-> "cgoto_one", slots |-> 0, subs |-> {}],         \* goto (10, 20) i
+  [n |-> "impdo", slots |-> 1, subs |-> {}],             \* print *, (E, i = 1, 3)     -- implied DO: a parenthesis that is no argument list
+  [n |-> "callgroup", slots |-> 1, subs |-> {"p"}],        \* call p((E - 1.0) * 0.5)
   [n |-> "blockdecl", slots |-> 1, subs |-> {}],         \* block / integer :: q(3) / q(1) = E / end block
   [n |-> "tbcall", slots |-> 0, subs |-> {"circle%reset"}],          \* call c%reset()
   [n |-> "tbfunc", slots |-> 0, subs |-> {"circle%area"}],            \* x = c%area()
